@@ -44,6 +44,8 @@ def _ops():
         st.tuples(st.just("pf_instance"), st.sampled_from(["cls_ro", "inst_ro"]), _o),
         st.tuples(st.just("set"), _i, st.integers(0, 4), _o, st.sampled_from(["attr", "update"])),
         st.tuples(st.just("set_same"), _i, st.integers(0, 4), st.sampled_from(["attr", "update"])),
+        # an object equal to the held one but not identical with it (a fresh list / int / str of the same value)
+        st.tuples(st.just("set_equal"), _i, st.sampled_from([0, 2, 3, 4]), st.sampled_from(["attr", "update"])),
         st.tuples(st.just("cls_set"), st.integers(0, 2), st.integers(0, 4), _o),
         st.tuples(st.just("enter"), _i),
         st.tuples(st.just("exit"), st.booleans()),
@@ -291,7 +293,7 @@ def execute(case):
             insts.append({"obj": o, "held": held, "foreign": bool(stack)})
             if stack:
                 res.label("created_inside_block")
-        elif kind in ("set", "set_same"):
+        elif kind in ("set", "set_same", "set_equal"):
             if not insts:
                 continue
             idx = op[1] % len(insts)
@@ -300,6 +302,20 @@ def execute(case):
             if kind == "set_same":
                 v = rec["held"][n]
                 route = op[3]
+            elif kind == "set_equal":
+                h_ = rec["held"][n]
+                if isinstance(h_, list):
+                    v = list(h_)
+                elif isinstance(h_, int) and not isinstance(h_, bool):
+                    v = int(str(h_))
+                elif isinstance(h_, str) and len(h_) > 1:
+                    v = "".join([h_[:1], h_[1:]])
+                else:
+                    continue
+                if v is h_:
+                    continue
+                route = op[3]
+                res.label("equal_but_distinct_object")
             else:
                 v = 2.5 if n == "n" else val_for(n, op[3])
                 route = op[4]
